@@ -60,7 +60,7 @@ theorem mix_noninterfering (W : Work L Z R) (fs₀ : FS P L) (isInput : P → Pr
     · obtain ⟨k, hk, hkl⟩ := prog_withZone isInput c.2.outs W c.1 zr c.2 cache hcall hz hzr
       have e : (w.fs₀ (locOf W fs₀ c).tmp) = none := (h.tmp_fresh c hcm).1
       rw [e, hk, href]
-      refine rg_withZone W h.roundtrip w (locOf W fs₀ c) zr ref k (hsepc c hcm) ?_ rfl (h.tmp_fresh c hcm).1 hkl ?_
+      refine rg_withZone W zr h.roundtrip w (locOf W fs₀ c) ref k (hsepc c hcm) ?_ rfl (h.tmp_fresh c hcm).1 hkl ?_
       · rw [← href]; exact (h.inputs c hcm).2
       · show ((prog W c.1 c.2 : Prog P L R).exec fs₀).2 = _
         rw [hk, href]
